@@ -31,6 +31,8 @@ DOMS = [
     [(0, 1), 0, 1],
     ['x'],
     [('a', 'b'), 'a', 'b'],
+    ['a', ('a',), 'b'],          # an element and the 1-tuple that holds it
+    [1, (1,), 2],
 ]
 FOREIGN = ['zz', 99, (9, 9), None, frozenset({7}), 3.25, ('a', 'zz'), (0, 99), ('a',), (0, 1, 2, 3)]
 
@@ -155,6 +157,13 @@ def table_laws(sx, fields, cls='Table'):
                 sx.prove_eq(v, cells[i], f'items-value[{i}]', tol=0)
             else:
                 _same_table(sx, v, doms[1:], cells[i], f'items-value[{i}]')
+        vals = list(tb.values())
+        sx.prove(len(vals) == len(doms[0]), 'values-one-per-outer-key')
+        for i, v in enumerate(vals[:len(doms[0])]):
+            if n == 1:
+                sx.prove_eq(v, cells[i], f'values[{i}]', tol=0)
+            else:
+                _same_table(sx, v, doms[1:], cells[i], f'values[{i}]')
         # every element key / full key / nested / partial
         for combo in itertools.product(*[range(len(d)) for d in doms]):
             keyt = tuple(doms[f][i] for f, i in enumerate(combo))
@@ -267,7 +276,7 @@ def jobs(tier):
         yield ('table_laws', dict(fields=[f]), o)
     pairs = list(itertools.product(range(nd), repeat=2))
     if tier == 'quick':
-        pairs = [p for k, p in enumerate(pairs) if k % 3 == 0 or p[0] in (2, 3, 6, 8)]
+        pairs = [p for k, p in enumerate(pairs) if k % 3 == 0 or p[0] in (2, 3, 6, 8, 9, 10)]
     for p in pairs:
         yield ('table_laws', dict(fields=list(p)), o)
         yield ('table_laws', dict(fields=list(p), cls='ProbabilityTable'), o)
